@@ -2135,3 +2135,21 @@ variant('t-metadata-read-size-in-a-local', ['C03'], 'rsocket/frame_fragmenter.py
                 break
 
             if len(metadata_fragment) < wanted:""", kind='twin')
+
+# C01.o DefaultSubscriber forwards
+DS = 'reactivestreams/subscriber.py'
+variant('b-default-subscriber-drops-the-completion-flag', ['C01'], DS,
+        "            self._on_next(value, is_complete)", "            self._on_next(value, False)",
+        ('C01.o', 'DefaultSubscriber.on_next'))
+variant('b-default-subscriber-error-to-complete', ['C01'], DS,
+        "            self._on_error(exception)", "            self._on_complete()", ('C01.o', 'DefaultSubscriber.on_error'))
+variant('b-default-subscriber-callbacks-crossed', ['C01'], DS,
+        "        self._on_complete = on_complete\n        self._on_error = on_error",
+        "        self._on_complete = on_error\n        self._on_error = on_complete", ('C01.o', 'DefaultSubscriber'))
+variant('b-default-subscriber-forgets-subscription', ['C01'], DS,
+        "        self.subscription = subscription\n\n        if self._on_subscribe is not None:",
+        "        if self._on_subscribe is not None:\n            self.subscription = subscription",
+        ('C01.o', 'DefaultSubscriber.on_subscribe'))
+variant('t-default-subscriber-truthiness', ['C01'], DS,
+        "        if self._on_complete is not None:\n            self._on_complete()",
+        "        if self._on_complete:\n            self._on_complete()", kind='twin')
